@@ -182,6 +182,10 @@ def run_idd(case, stt):
     stt.label("constant_" + (case.get("dm_k") or "lib"))
     kw = {} if case["ref"] == "none" else {"ref_freq": float(fr) * u.Hz}
     ds = [O.disp_delay_s(dm, f, fr) * rate for f in labels]
+    if spec["t0"] and max(abs(d) for d in ds) / rate > 10**8:
+        # (a common delay of more than three years: the new start time would leave the range of dates astropy can convert)
+        stt.label("skip_delay_beyond_calendar")
+        return
     fz = max(O.delay_fuzz(dm, f, fr, rate) for f in labels) if dm != 0 else 0
     cand = []
     for d in ds:
